@@ -35,6 +35,8 @@ CONTRIB = {t: v[2] for t, v in C.SCO21.items()}
 CONTRIB['x-sim-obs-a'] = ['alpha', 'beta', 'flag']
 CONTRIB['x-sim-obs-b'] = ['name', 'meta']
 CONTRIB['x-sim-obs-c'] = ['seen_ms', 'seen_any', 'label']
+CONTRIB['x-sim-obs-d'] = ['channel', 'enabled', 'label']        # channel and enabled are declared with default= (7, False)
+OBS_D_DEFAULTS = {'channel': 7, 'enabled': False}
 TS_POOL = ['2016-01-01T00:00:00Z', '2016-06-19T14:20:40.5Z', '2038-01-19T03:14:08.000001Z', '1970-01-01T00:00:00Z', '2016-01-01T00:00:00.123Z']
 TS_POOL_MS = [t for t in TS_POOL if t != '2038-01-19T03:14:08.000001Z']
 TYPES = sorted(CONTRIB)
@@ -182,6 +184,16 @@ def gen_item(rng, n):
         if some() or not c:
             c['label'] = pick_str(rng) or 'l'
         nc['note'] = pick_str(rng)
+    elif t == 'x-sim-obs-d':
+        # contributing properties declared with default=: given explicitly AT the default value, given otherwise, or left to the
+        # library to fill in - in every case the property is present on the object and contributes its value
+        for k, vals in (('channel', [7, 7, 0, 8]), ('enabled', [False, False, True])):
+            r = rng.random()
+            if r < 0.6:
+                c[k] = rng.choice(vals)
+        if some():
+            c['label'] = pick_str(rng) or 'l'
+        nc['note'] = pick_str(rng)
     elif t == 'x-sim-obs-a':
         if some():
             c['alpha'] = rng.choice([pick_str(rng), pick_str(rng), ''])
@@ -227,9 +239,12 @@ def respell_hashes(props, n):
 def expected_canonical(item):
     """Canonical JSON of exactly the present contributing properties (one hash chosen by preference)."""
     obj = {}
+    given = item['c']
+    if item['type'] == 'x-sim-obs-d':
+        given = dict(OBS_D_DEFAULTS, **given)        # what is not given is filled in with the declared default, and is then present
     for k in CONTRIB[item['type']]:
-        if k in item['c']:
-            v = item['c'][k]
+        if k in given:
+            v = given[k]
             if k == 'hashes':
                 for a in PREF:
                     if a in v:
@@ -263,7 +278,7 @@ class C06(Profile):
     owns_registries = True
     tiers = {'quick': 4000, 'thorough': 200000}
     wall_cap = {'quick': 900, 'thorough': 5 * 3600}
-    probes = ['construction_refused_during_id_generation', 'utf16_vs_codepoint_member_order', 'disturbance_between_constructions', 'no_contributing_property_v4', 'hash_preference_applied', 'non_preferred_single_hash', 'non_preferred_several_hashes_first_wins', 'extension_with_float', 'custom_observable',
+    probes = ['defaulted_contributing_property', 'construction_refused_during_id_generation', 'utf16_vs_codepoint_member_order', 'disturbance_between_constructions', 'no_contributing_property_v4', 'hash_preference_applied', 'non_preferred_single_hash', 'non_preferred_several_hashes_first_wins', 'extension_with_float', 'custom_observable',
               'equal_contrib_different_noncontrib', 'near_miss_different_id', 'string_needing_escape', 'astral_or_bmp_boundary',
               'route_bundle_member', 'route_memory_store', 'uuid4_stream_differs', 'hash_names_respelled', 'falsy_contributing_value']
     rule = ('plans: 6-14 items (a 2.1 observable type incl. two registered custom observables, contributing and non-contributing values with '
@@ -367,6 +382,12 @@ class C06(Profile):
                                                 ('label', StringProperty()), ('note', StringProperty())],
                                 id_contrib_props=['seen_ms', 'seen_any', 'label'])
         class ObsC(object):
+            pass
+
+        @s.v21.CustomObservable('x-sim-obs-d', [('channel', IntegerProperty(default=lambda: 7)), ('enabled', BooleanProperty(default=lambda: False)),
+                                                ('label', StringProperty()), ('note', StringProperty())],
+                                id_contrib_props=['channel', 'enabled', 'label'])
+        class ObsD(object):
             pass
         items = plan['items']
         seen = {}       # item index -> {id}
@@ -523,6 +544,8 @@ class C06(Profile):
             world.probe('astral_or_bmp_boundary')
         if t.startswith('x-sim'):
             world.probe('custom_observable')
+        if t == 'x-sim-obs-d' and any(given_v == OBS_D_DEFAULTS[k] for k, given_v in dict(OBS_D_DEFAULTS, **it['c']).items() if k in OBS_D_DEFAULTS):
+            world.probe('defaulted_contributing_property')
         if any(v in (0, '', False) and not isinstance(v, float) for v in it['c'].values() if not isinstance(v, (dict, list))):
             world.probe('falsy_contributing_value')
         if 'hashes' in it['c']:
